@@ -51,7 +51,10 @@ def _install():
 def cases(tier, seed, prep=None):
     n = 300 if tier == "quick" else 9000
     kinds = ["responsive", "responsive", "silent", "silent", "slow-then-silent", "cut-then-responsive", "close"]
-    return [{"seed": seed * 1000003 + 1600000 + i, "kind": kinds[i % len(kinds)]} for i in range(n)]
+    out = [{"seed": seed * 1000003 + 1600000 + i, "kind": kinds[i % len(kinds)]} for i in range(n)]
+    for i in range(24 if tier == "quick" else 600):
+        out.append({"seed": seed * 1000003 + 1650000 + i, "kind": "cut-then-responsive", "nflaps": [5, 8, 12, 20][i % 4]})
+    return out
 
 
 def run_case(spec):
@@ -138,11 +141,21 @@ def run_case(spec):
             silent_link = None
         run_until(t0 + 6 * x + 5)
     elif kind == "cut-then-responsive":
-        run_until(t_conn + rng.random() * 5 * x)
-        link = dp.selected_link()
-        if link is not None:
-            r.cut(link)
-            cuts += 1
+        # 1..12 generations are lost in a row (each some time after it came up, possibly before its
+        # first ping round trip), then the replacement is left alone and must be monitored and kept
+        for i in range(spec.get("nflaps") or rng.choice([1, 1, 2, 3])):
+            run_until(r.seconds() + rng.random() * rng.choice([0.3, 2, 5]) * x)
+            link = dp.selected_link()
+            if link is None:
+                ends = dp.selected_ends("A") + dp.selected_ends("B")
+                link = ends[0].link if ends else None
+            if link is not None:
+                r.cut(link)
+                cuts += 1
+            t_lim = r.seconds() + 40 * x + 60
+            while not dp.both_connected() and r.seconds() < t_lim:
+                run_until(r.seconds() + 0.25 * x)
+        horizon = r.seconds() + x * rng.choice([8, 20])
         run_until(horizon)
     elif kind == "close":
         run_until(t_conn + rng.random() * 4 * x)
